@@ -51,6 +51,10 @@ def main():
         "id": sid + suffix, "property": sid[:3], "repo_tests_with_change": tests,
         "checks": {p: {"alarm": x["exit"] == 1, "exit": x["exit"], "seconds": x["seconds"], "message": x["message"]} for p, x in checks.items()},
     }
+    # a re-run with a subset of the checks keeps the recorded outcome of the others
+    merged = dict(old.get("checks", {}))
+    merged.update(meta["checks"])
+    meta["checks"] = dict(sorted(merged.items()))
     for k in ("review", "first_run"):
         if k in old:
             meta[k] = old[k]
